@@ -15,14 +15,13 @@ def run(ctx):
     binp = snapalg.build()
     run_ = snapalg.Run(ctx)
     if ctx.tier == "quick":
-        fams_laws, fams_a, nb, seeds, par = ["PairQuick"], ["PairQuick"], 120, 1, 4
+        fams_laws, fams_a, nb, seeds, par = ["PairQuick"], ["PairQuick"], 80, 1, 4
     else:
         fams_laws = ["PairMedium", "PairExplicit", "PairThorough", "BigPair"]
         fams_a = ["PairMedium", "PairExplicit", "PairThorough", "BigPair"]
         nb, seeds, par = 400, 4, 8
-    snapalg.do_laws(ctx, fams_laws, workers=2 if ctx.tier == "quick" else 3, par=2 if ctx.tier == "quick" else 4)
-    outs = snapalg.do_direction_a(ctx, run_, binp, fams_a, par=par, split_parts=par)
-    paths = snapalg.do_direction_b(ctx, run_, binp, "pair", nb, par=par, split_parts=par, seeds=seeds)
+    paths = snapalg.run_all(ctx, run_, binp, fams_laws, fams_a, "pair", nb, seeds=seeds, par=par,
+                            law_workers=2 if ctx.tier == "quick" else 3)
     if ctx.tier == "thorough" and paths:
         def mut(ev):
             ev["r_ints"]["res"]["crc"] = ev["r_ints"]["res"]["crc"] ^ 1
